@@ -426,6 +426,36 @@ func registerIntercepts(g *Engine) {
 		return nil
 	}
 	ic["verif:verifSettle"] = func(e *Exec, fn *ssa.Function, a []Value) Value { return nil }
+	// verifQuiesce: (explore mode) the calling thread waits until no other
+	// thread can run any more; returns how many other threads have not
+	// finished (blocked for ever = leaked). The goroutine census of C08.
+	ic["verif:verifQuiesce"] = func(e *Exec, fn *ssa.Function, a []Value) Value {
+		if !e.exploring() || e.curThread == nil {
+			return e.tb.Const(64, 0)
+		}
+		me := e.curThread
+		quiet := func() bool {
+			for _, t := range e.threads {
+				if t == me {
+					continue
+				}
+				if t.status == tRunnable || (t.status == tBlocked && t.ready != nil && t.ready()) {
+					return false
+				}
+			}
+			return true
+		}
+		e.blockUntil(quiet, "verifQuiesce")
+		n := 0
+		for _, t := range e.threads {
+			if t != me && t.status != tDone {
+				n++
+				e.obsNames = append(e.obsNames, "leaked "+t.name+" blocked at "+t.what)
+				e.obsTerms = append(e.obsTerms, e.tb.Const(64, 1))
+			}
+		}
+		return e.tb.Const(64, uint64(n))
+	}
 	// verifRunGoroutines: let the spawned coroutines run until all of them are
 	// parked or finished (see coro.go).
 	ic["verif:verifRunGoroutines"] = func(e *Exec, fn *ssa.Function, a []Value) Value {
